@@ -500,7 +500,7 @@ namespace occa {
       skipTo("\"\n");
 
       // Handle error outside of here
-      if (*fp.start == '\n') {
+      if (*fp.start != '"') {
         printError("Not able to find a closing \"");
         pop();
         return false;
@@ -524,7 +524,7 @@ namespace occa {
 
       // Find delimiter
       skipTo("(\n");
-      if (*fp.start == '\n') {
+      if (*fp.start != '(') {
         pop();
         popAndRewind();
         return;
@@ -780,7 +780,7 @@ namespace occa {
       ++fp.start; // Skip '
       push();
       skipTo("'\n");
-      if (*fp.start == '\n') {
+      if (*fp.start != '\'') {
         printError("Not able to find a closing '");
         popAndRewind();
         pop();
@@ -853,7 +853,7 @@ namespace occa {
       ++fp.start; // Skip <
       push();
       skipTo(">\n");
-      if (*fp.start == '\n') {
+      if (*fp.start != '>') {
         printError("Not able to find a closing >");
         pop();
         pop();
